@@ -9,8 +9,14 @@ expanded in their callers when a crate's facts are loaded: the callee's blocks a
 copied in (locals and blocks renumbered), its parameters become assignments from the call's
 arguments, its `return` becomes an assignment to the call's destination and a jump to the
 continuation. The helper itself stays in the crate (whole-crate audits still see it). Only named,
-non-recursive functions of the same crate with a body are expanded, at most three levels deep;
-closures are left alone (rules that look into closures do so explicitly).
+non-recursive functions of the same crate with a body are expanded, at most three levels deep.
+
+The same is done for a *local closure that is called by name* (`let gather = |rows| {..};
+gather(a); gather(b);`) unless the pinned tree already calls that closure by name
+(`direct_closures` in the baseline; rules look into those explicitly): its body is copied to each
+call, the tupled arguments become its parameters, and every use of a captured variable
+(`(*_1).k`) is redirected to a local that receives capture k where the closure is created.
+Closures handed to adaptors (`map`, `for_each`, `sort_by`, ..) are left alone.
 
 This changes no verdict on the pinned tree: it has no function outside its own baseline.
 """
@@ -23,12 +29,22 @@ BASELINE = os.path.join(os.path.dirname(HERE), "spec", "fn_baseline.json")
 _base = None
 
 
+_direct = None
+
+
 def baseline():
-    global _base
+    global _base, _direct
     if _base is None:
         with open(BASELINE) as fh:
-            _base = set(json.load(fh)["functions"])
+            j = json.load(fh)
+        _base = set(j["functions"])
+        _direct = set(j.get("direct_closures", []))
     return _base
+
+
+def baseline_direct_closures():
+    baseline()
+    return _direct
 
 
 def _strip(path):
@@ -116,21 +132,135 @@ def expand(crate_json):
     """Expand calls to new helpers in every function of the crate (in place). Returns the number
     of call sites expanded."""
     helpers = new_helpers(crate_json)
-    if not helpers:
+    closures = new_direct_closures(crate_json)
+    if not helpers and not closures:
         return 0
     total = 0
     for f in crate_json["fns"]:
         body = f.get("body")
         if not body:
             continue
-        total += _expand_fn(f, helpers, 0, {f["path"]})
+        total += _expand_fn(f, helpers, 0, {f["path"]}, closures)
     return total
 
 
-def _expand_fn(f, helpers, depth, stack):
+def new_direct_closures(crate_json):
+    """closures that the pinned tree does not call by name (`let f = |..| ..; f(x)`)"""
+    keep = baseline_direct_closures()
+    return {f["path"]: f for f in crate_json["fns"]
+            if f.get("kind") == "Closure" and f.get("body") and f["path"] not in keep}
+
+
+CALL_TRAITS = ("std::ops::Fn::call", "std::ops::FnMut::call_mut", "std::ops::FnOnce::call_once")
+
+
+def _single_defs(body):
+    defs = {}
+    for bi, bb in enumerate(body["blocks"]):
+        for si, s in enumerate(bb["stmts"]):
+            if "lhs" in s and not s["lhs"]["p"]:
+                defs.setdefault(s["lhs"]["l"], []).append((bi, si, s))
+        t = bb["term"]
+        if t.get("k") == "call" and isinstance(t.get("dest"), dict) and not t["dest"]["p"]:
+            defs.setdefault(t["dest"]["l"], []).append((bi, None, None))
+    return defs
+
+
+def _op_place(op):
+    if isinstance(op, dict):
+        for k in ("c", "m"):
+            if k in op and isinstance(op[k], dict) and "l" in op[k]:
+                return op[k]
+    return None
+
+
+def _find_closure_agg(body, op, cpath):
+    """the statement `_x = [closure cpath](captures..)` that the callee operand of a direct call
+    refers to (through copies, moves and re-borrows of a local), or None"""
+    defs = _single_defs(body)
+    pl = _op_place(op)
+    for _ in range(8):
+        if pl is None or any(e != "*" for e in pl["p"]):
+            return None
+        d = defs.get(pl["l"])
+        if not d or len(d) != 1 or d[0][2] is None:
+            return None
+        bi, si, s = d[0]
+        rv = s["rv"]
+        if rv["k"] == "agg" and rv.get("agg") == "closure":
+            return (bi, si, s) if rv.get("closure") == cpath else None
+        if rv["k"] in ("use", "cast"):
+            pl = _op_place(rv["op"])
+        elif rv["k"] in ("ref", "rawptr"):
+            pl = rv.get("place")
+        else:
+            return None
+    return None
+
+
+def _subst_captures(x, self_local, caps):
+    """rewrite `(*_self).k ...` / `_self.k ...` (a captured variable) to the local that holds
+    the capture in the enclosing function"""
+    if isinstance(x, dict):
+        if "l" in x and "p" in x and isinstance(x["l"], int):
+            if x["l"] == self_local:
+                p = x["p"]
+                j = 1 if p and p[0] == "*" else 0
+                if len(p) > j and isinstance(p[j], dict) and p[j].get("closure") and p[j].get("f") in caps:
+                    x["l"] = caps[p[j]["f"]]
+                    x["p"] = p[j + 1:]
+            return
+        for k, v in x.items():
+            if k in ("sp", "fn_sp", "func", "ty", "from_ty", "arg_tys", "dest_ty", "targs", "fields"):
+                continue
+            _subst_captures(v, self_local, caps)
+    elif isinstance(x, list):
+        for v in x:
+            _subst_captures(v, self_local, caps)
+
+
+def _capture_locals(body, agg, cbody, memo):
+    bi, si, s = agg
+    key = (id(body), s["lhs"]["l"])
+    if key in memo:
+        return memo[key]
+    # type of capture k as the closure body sees it
+    tys = {}
+
+    def scan(x):
+        if isinstance(x, dict):
+            if x.get("closure") and "f" in x and "t" in x:
+                tys.setdefault(x["f"], x["t"])
+            for v in x.values():
+                scan(v)
+        elif isinstance(x, list):
+            for v in x:
+                scan(v)
+    scan(cbody["blocks"])
+    scan(cbody.get("debug", []))
+    caps = {}
+    ins = []
+    for k, op in enumerate(s["rv"]["ops"]):
+        pl = _op_place(op)
+        ty = body["locals"][pl["l"]]["ty"] if pl is not None and not pl["p"] else tys.get(k, "?")
+        body["locals"].append({"ty": ty})
+        caps[k] = len(body["locals"]) - 1
+        src = {"c": copy.deepcopy(pl)} if pl is not None else copy.deepcopy(op)
+        ins.append({"lhs": {"l": caps[k], "p": []}, "rv": {"k": "use", "op": src}, "sp": s.get("sp")})
+    stmts = body["blocks"][bi]["stmts"]
+    # after the aggregate (the statement object, not its index: earlier insertions shift it)
+    at = next(i for i, x in enumerate(stmts) if x is s) + 1
+    stmts[at:at] = ins
+    memo[key] = caps
+    return caps
+
+
+def _expand_fn(f, helpers, depth, stack, closures=None):
     body = f["body"]
     n = 0
     bi = 0
+    memo = {}
+    closures = closures or {}
     chains = {}          # block index -> helpers it was copied through (recursion / depth guard)
     while bi < len(body["blocks"]):
         bb = body["blocks"][bi]
@@ -143,10 +273,28 @@ def _expand_fn(f, helpers, depth, stack):
         if cp is None:
             continue
         h = helpers.get(cp) or helpers.get(_strip(cp))
+        caps = None
+        params = term["args"]
+        if h is None and cp in closures and cp != f["path"] and cp not in chain and len(term["args"]) == 2 and \
+                ((term.get("func") or {}).get("k") or {}).get("fn", {}).get("path") in CALL_TRAITS:
+            c = closures[cp]
+            agg = _find_closure_agg(body, term["args"][0], cp)
+            tup = None
+            tl = _op_place(term["args"][1])
+            if tl is not None and not tl["p"]:
+                for s0 in bb["stmts"]:
+                    if "lhs" in s0 and s0["lhs"] == tl and s0["rv"]["k"] == "agg" and s0["rv"].get("agg") == "tuple":
+                        tup = s0["rv"]["ops"]
+            elif isinstance(term["args"][1], dict) and "k" in term["args"][1] and c["body"]["arg_count"] == 1:
+                tup = []          # `f()` : the unit tuple is a constant
+            if agg is not None and tup is not None and len(tup) + 1 == c["body"]["arg_count"]:
+                caps = _capture_locals(body, agg, c["body"], memo)
+                h = c
+                params = [term["args"][0]] + list(tup)
         if h is None or h["path"] in chain or not h.get("body"):
             continue
         hb = h["body"]
-        if len(term["args"]) != hb["arg_count"]:
+        if len(params) != hb["arg_count"]:
             continue
         dl = len(body["locals"])
         db = len(body["blocks"])
@@ -155,6 +303,8 @@ def _expand_fn(f, helpers, depth, stack):
             d2 = copy.deepcopy(d)
             if d2.get("place") is not None:
                 _shift_place(d2["place"], dl)
+                if caps is not None:
+                    _subst_captures(d2, dl + 1, caps)
                 d2.pop("arg", None)
                 body["debug"].append(d2)
         cont = term.get("t")
@@ -181,10 +331,12 @@ def _expand_fn(f, helpers, depth, stack):
                         continue
                     _walk_shift(v, dl)
                 _retarget(t, db)
+            if caps is not None:
+                _subst_captures(nb, dl + 1, caps)
             chains[len(body["blocks"])] = chain | {h["path"]}
             body["blocks"].append(nb)
         # the call block: parameters := arguments, then enter the helper
-        for i, a in enumerate(term["args"]):
+        for i, a in enumerate(params):
             bb["stmts"].append({"lhs": {"l": dl + 1 + i, "p": []}, "rv": {"k": "use", "op": copy.deepcopy(a)}, "sp": sp})
         bb["term"] = {"sp": sp, "k": "goto", "t": db, "inlined": h["path"]}
         n += 1
